@@ -334,9 +334,9 @@ def run(ctx, replay_jobs=None, replay_glue=None):
         jobs = f5_probe_jobs()
     else:
         jobs = load_corpus() + f5_probe_jobs() + edge_jobs(rng)
-        jobs += [Job("X", "X", gen_rates_x(rng)) for _ in range(ctx.n(1400, 50000))]
-        jobs += [Job("D", "F", gen_rates_d(rng)) for _ in range(ctx.n(800, 25000))]
-        jobs += [Job("G", "F", gen_rates_g(rng)) for _ in range(ctx.n(640, 25000))]
+        jobs += [Job("X", "X", gen_rates_x(rng)) for _ in range(ctx.n(1400, 14000))]
+        jobs += [Job("D", "F", gen_rates_d(rng)) for _ in range(ctx.n(800, 8000))]
+        jobs += [Job("G", "F", gen_rates_g(rng)) for _ in range(ctx.n(640, 6400))]
     preset = [j for j in jobs if j.samples]
     run_impl(ctx, jobs)                     # round 1: tables
     for j in jobs:
@@ -432,7 +432,8 @@ def run(ctx, replay_jobs=None, replay_glue=None):
                                "handler_glue": glue["summary"] if glue else "not run in table replay"},
         "model_vs_impl_mismatches": len(mism),
         "oracle_failures": len(fails),
-        "traces_validated_against_impl": neval,
+        "traces_validated_against_impl": stats["draws_to_coq"] + sum(1 for k in kinds if k != "samples"),
+        "coq_case_terms_evaluated": neval,
         "case_files": nfiles, "case_files_ok": nok,
         "explanation": "Props/C18.v re-checked (%d theorems incl. alias_exact for every vector length); exact "
                        "correspondence of Model/Walker.v (two stacks, >, < tests, row order, final asserts) with the "
